@@ -17,7 +17,7 @@
 -/
 import OPModel.Properties.C01
 import OPModel.Gen.Constants
-import OPModel.Model.Pinch
+import OPModel.Proofs.GridLemmas
 
 namespace OP.C14
 open OP
@@ -47,24 +47,6 @@ example : directTargets Gen.tol (Gen.activityFactor * Gen.tol) [190, 110] [⟨11
 
 /-! ### reported temperatures stay inside the input envelope -/
 
-theorem mem_insertDesc (x y : Rat) : ∀ l : List Rat, y ∈ insertDesc x l → y = x ∨ y ∈ l := by
-  intro l
-  induction l with
-  | nil => intro h; simp [insertDesc] at h; exact Or.inl h
-  | cons z zs ih =>
-    intro h
-    unfold insertDesc at h
-    split_ifs at h with h1 h2
-    · rcases List.mem_cons.mp h with h | h
-      · exact Or.inl h
-      · exact Or.inr h
-    · exact Or.inr h
-    · rcases List.mem_cons.mp h with h | h
-      · exact Or.inr (by simp [h])
-      · rcases ih h with h | h
-        · exact Or.inl h
-        · exact Or.inr (List.mem_cons_of_mem _ h)
-
 /-- **Every row of the temperature grid is (the 6-decimal rounding of) an input temperature**: the
     grid of `create_problem_table_with_t_int` invents no temperature. -/
 theorem grid_rows_are_inputs (dp : Nat) (temps : List Rat) :
@@ -79,11 +61,6 @@ theorem grid_rows_are_inputs (dp : Nat) (temps : List Rat) :
     · exact ⟨a, by simp, h⟩
     · obtain ⟨x, hx, e⟩ := ih t h
       exact ⟨x, List.mem_cons_of_mem _ hx, e⟩
-
-theorem pyIndex_mem (xs : List Rat) (i : Int) (a : Rat) (h : pyIndex xs i = some a) : a ∈ xs := by
-  unfold pyIndex at h
-  simp only at h
-  split_ifs at h <;> exact List.mem_of_getElem? h
 
 /-- **The reported pinch temperatures are rows of the grid**: whatever the column, `pinch_temperatures`
     returns two entries of the temperature column or nothing — hence temperatures inside any envelope
